@@ -25,6 +25,8 @@ type c13Case struct {
 	// Sibling: a second module that Mod requires through a replace directive (may be nil)
 	Sibling  *modspec.Mod `json:"sibling,omitempty"`
 	Features []string     `json:"features"`
+	// ViaLink: the module is loaded through a symbolic link to its directory
+	ViaLink bool `json:"vialink,omitempty"`
 }
 
 var c13Names = []string{"A", "B", "Item", "Node", "Box", "Pair", "inner", "opts", "Kind", "Color"}
@@ -196,6 +198,10 @@ func genC13(t *rapid.T) c13Case {
 	}
 	for f := range feats {
 		c.Features = append(c.Features, f)
+	}
+	if rapid.IntRange(0, 4).Draw(t, "vialink") == 0 {
+		c.ViaLink = true
+		c.Features = append(c.Features, "loaded-through-a-symbolic-link")
 	}
 	sort.Strings(c.Features)
 	return c
@@ -477,6 +483,13 @@ func oracleC13(c c13Case) error {
 		mod.Extra = append(mod.Extra, modspec.File{Name: "go.mod", Data: fmt.Sprintf("module %s\n\ngo %s\n\nrequire example.com/sib v0.0.0\n\nreplace example.com/sib => ../sib\n", mod.Path, mod.Go)})
 	}
 	writeMod(&mod, mainDir)
+	if c.ViaLink {
+		link := filepath.Join(root, "linked")
+		if err := os.Symlink(mainDir, link); err != nil {
+			panic("harness: symlink: " + err.Error())
+		}
+		mainDir = link
+	}
 	u, err := load(mainDir, "./...")
 	if err != nil {
 		panic("harness: synthetic module does not load: " + err.Error())
